@@ -566,6 +566,25 @@ fn rollback(state: &mut ApplyState) -> Result<()> {
     Ok(())
 }
 
+/// The .renamify directory the history and the stored plans live in.
+/// If `backup_dir` is .renamify/backups/<plan id> or .renamify/backups, that is .renamify
+fn history_dir<'a>(options: &'a ApplyOptions, plan_id: &str) -> &'a Path {
+    if options.backup_dir.ends_with(plan_id) {
+        // backup_dir is .renamify/backups/plan_id
+        options
+            .backup_dir
+            .parent() // .renamify/backups
+            .and_then(|p| p.parent()) // .renamify
+            .unwrap_or_else(|| Path::new(".renamify"))
+    } else {
+        // backup_dir is .renamify/backups
+        options
+            .backup_dir
+            .parent() // .renamify
+            .unwrap_or_else(|| Path::new(".renamify"))
+    }
+}
+
 /// Apply a renaming plan
 #[allow(clippy::too_many_lines)]
 pub fn apply_plan(plan: &mut Plan, options: &ApplyOptions) -> Result<()> {
@@ -575,6 +594,17 @@ pub fn apply_plan(plan: &mut Plan, options: &ApplyOptions) -> Result<()> {
     state.log(&format!("Options: {:?}", options))?;
 
     // Note: Backup system uses diffy patches, not file backups
+
+    // A history entry with this id would be rejected at the very end, after the tree has been
+    // changed (ids are derived from the arguments and the current second): refuse up front
+    if History::load(history_dir(options, &plan.id))?
+        .find_entry(&plan.id)
+        .is_some()
+    {
+        let e = anyhow!("History entry with ID {} already exists", plan.id);
+        state.log(&format!("Refusing to apply: {}", e))?;
+        return Err(e);
+    }
 
     // Refuse to overwrite: before anything is changed, make sure no planned destination is
     // already occupied by something else (a case-only rename of the same file is fine)
@@ -832,20 +862,7 @@ pub fn apply_plan(plan: &mut Plan, options: &ApplyOptions) -> Result<()> {
     );
 
     // Determine the .renamify directory location
-    // If backup_dir is .renamify/backups/plan_id, we want .renamify
-    // If backup_dir is .renamify/backups, we want .renamify
-    let renamify_dir = if options.backup_dir.ends_with(&plan.id) {
-        // backup_dir is .renamify/backups/plan_id
-        options.backup_dir
-            .parent() // .renamify/backups
-            .and_then(|p| p.parent()) // .renamify
-            .unwrap_or_else(|| Path::new(".renamify"))
-    } else {
-        // backup_dir is .renamify/backups
-        options.backup_dir
-            .parent() // .renamify
-            .unwrap_or_else(|| Path::new(".renamify"))
-    };
+    let renamify_dir = history_dir(options, &plan.id);
 
     let mut history = History::load(renamify_dir)?;
     history.add_entry(history_entry)?;
